@@ -210,6 +210,29 @@ theorem c18_managed (cfg : Cfg) {s : St} (hr : Reach cfg s) :
     ∀ c, c < s.ncaches → s.released c = false → c ∈ s.buckets ∧ s.cur c = s.lastGen :=
   reach_managed cfg hr
 
+/-- **a registered bucket always allocates into a live generation.**  In every reachable state - any interleaving of
+`AddBucket` (one critical section, as in the source: `c18_x_rotate_addbucket`), `Rotate`, the steps of `Cleanup`,
+lookups, saves, failed loads, `Release`, `CleanEmptyGenerations`, `ReleaseBuckets` - the current generation of every
+unreleased cache is the cleaner's last generation, which is in the cleaner's generation list, allocated and not
+stale. -/
+theorem c18_bucket_generation_listed (cfg : Cfg) (hes : 0 < cfg.entrySize) {s : St} (hr : Reach cfg s) :
+    ∀ c, c < s.ncaches → s.released c = false →
+      s.cur c = s.lastGen ∧ s.cur c ∈ s.glist ∧ s.cur c < s.ngens ∧ s.stale (s.cur c) = false := by
+  intro c hc hrel
+  have a := reach_ainv cfg hes hr
+  have h := (reach_managed cfg hr c hc hrel).2
+  rw [h]
+  exact ⟨rfl, a.lastGen_mem, (a.gl.2.1 _ a.lastGen_mem).1, (a.gl.2.1 _ a.lastGen_mem).2⟩
+
+/-- why `AddBucket` has to be one critical section: if `SetGeneration` ran after the unlock, a rotation in between
+would leave the new, unreleased bucket on the previous generation (here: not the last one; after a cleaning pass a
+stale one) - `c18_bucket_generation_listed` and with it the accounting would fail. -/
+theorem c18_addbucket_must_be_atomic :
+    let s1 := addBucketAppend init
+    let s3 := addBucketSetGen (doRotate s1.1) 0 s1.2
+    s3.released 0 = false ∧ s3.cur 0 ≠ s3.lastGen ∧
+      (markStale (addBucketSetGen (doRotate s1.1) 0 s1.2) 1).1.stale (s3.cur 0) = true := by decide
+
 /-- `ReleaseBuckets` (repaired form) keeps exactly the unreleased buckets, in order. -/
 theorem c18_release_buckets_exact (rel : Nat → Bool) (bs : List Nat) :
     (∀ b, b ∈ releaseBuckets rel bs ↔ b ∈ bs ∧ rel b = false) ∧ (releaseBuckets rel bs).Sublist bs := by
@@ -377,7 +400,7 @@ theorem c18_x_rotate_addbucket :
     rotateEvents = ["call c.mu.Lock", "c.lastGen = g", "call b.SetGeneration",
       "c.generations = append(c.generations, c.lastGen)", "call append", "call c.mu.Unlock"] ∧
     addBucketEvents = ["call c.mu.Lock", "call b.SetGeneration", "c.buckets = append(c.buckets, b)", "call append",
-      "call c.mu.Unlock"] := by decide
+      "call c.mu.Unlock"] ∧ addBucketAtomic = true := by decide
 
 /-- `ReleaseBuckets` is the stable compaction, not the swap-with-last loop -/
 theorem c18_x_release_buckets_shape :
